@@ -15,7 +15,7 @@ import (
 var recordTops = []string{"Inner", "Prims", "Opts", "Dflt", "Coll", "WithU", "Incl", "Incl2", "Rec", "Big", "IX", "IY"}
 
 // C06 also reads the record-typed-default family (DEmp) and the WIDE record (70 required fields, 36 through an include)
-var c06Tops = append(append([]string{}, recordTops...), "DEmp", "Wide", "Alias", "Alias2", "D1")
+var c06Tops = append(append([]string{}, recordTops...), "DEmp", "Wide", "Alias", "Alias2", "D1", "ONest")
 
 // delete / null / permute / inject on a conforming document
 func mutateDoc(s *Schema, t RType, d *Doc, r *hx.Rand, allowNull bool) (*Doc, string) {
